@@ -10,7 +10,7 @@ OWNER = 'C03'
 def run(res):
   scoreorder.run(res, thorough=(res.tier == 'thorough'))
   mmdesign.run_design_level(res, OWNER)
-  insts, verdicts, stats = mm.run_search_clauses(res, OWNER)
+  insts, verdicts, stats = mm.run_search_clauses(res, OWNER, count=None if res.tier == 'thorough' else 520)
   mm.vacuity_guard(res, OWNER, stats)
   # step-level binding of the implementation-shaped model (hooks): drift is recorded as a note, never a verdict
   mm.run_step_validation(res, insts, OWNER)
